@@ -19,7 +19,7 @@ META = {
              "with >= 1 null-offset edge"),
     "required": ["monitor:type-roundtrip", "monitor:value-roundtrip", "monitor:op-roundtrip",
                  "monitor:param-roundtrip", "monitor:arg-roundtrip", "monitor:sugar-eq",
-                 "monitor:foreign-doc", "feature:null-offset-edge", "feature:funcdefn-params",
+                 "monitor:foreign-doc", "monitor:doc-route", "feature:null-offset-edge", "feature:funcdefn-params",
                  "feature:block-delta", "feature:custom-description", "feature:extop"],
     "reach": ["hugr._serialization.ops:FuncDefn.deserialize", "hugr._serialization.ops:DataflowBlock.deserialize",
               "hugr._serialization.ops:ExtensionOp.deserialize", "hugr._serialization.tys:Opaque.deserialize",
@@ -56,6 +56,48 @@ def decode(model, j, route):
     return m
 
 
+def doc_route(ctx, op, what, stratum, case):
+    """the object, carried by a module-level operation, through the public document route
+    Hugr.to_json -> Hugr.load_json: the reloaded node must encode exactly as before"""
+    from hugr import Hugr, ops
+
+    ctx.count("monitor:doc-route")
+    h = Hugr(ops.Module())
+    n = h.add_node(op, h.root)
+    want = dump_op(op)
+    try:
+        h2 = Hugr.load_json(h.to_json())
+        got = dump_op(h2[n].op)
+    except Exception as e:  # noqa: BLE001
+        ctx.disc(None, "doc-route-raises", [what, type(e).__name__], "to_json -> load_json succeeds", str(e)[:300],
+                 stratum=stratum, case=case)
+        return
+    if got != want:
+        ctx.disc(None, "doc-route-reencode", what, want, got, stratum=stratum, case=case)
+
+
+def veq(a, b):
+    """attribute-by-attribute equality of two values (sugar classes equal to their general forms)"""
+    from hugr import val
+
+    if not isinstance(a, val.Extension) and hasattr(a, "to_value"):
+        a = a.to_value()
+    if not isinstance(b, val.Extension) and hasattr(b, "to_value"):
+        b = b.to_value()
+    if isinstance(a, val.Extension) or isinstance(b, val.Extension):
+        return (isinstance(a, val.Extension) and isinstance(b, val.Extension) and a.name == b.name
+                and dump(a.typ) == dump(b.typ) and set(a.extensions) == set(b.extensions)
+                and dump(a)["value"] == dump(b)["value"])
+    if isinstance(a, val.Function) or isinstance(b, val.Function):
+        return (isinstance(a, val.Function) and isinstance(b, val.Function)
+                and json.loads(a.body.to_json()) == json.loads(b.body.to_json()))
+    if isinstance(a, val.Sum) and isinstance(b, val.Sum):
+        # (types by their encoding: extension types come back in opaque form)
+        return (a.tag == b.tag and dump(a.typ) == dump(b.typ) and len(a.vals) == len(b.vals)
+                and all(veq(x, y) for x, y in zip(a.vals, b.vals)))
+    return False
+
+
 # ------------------------------------------------------------------------------------ types / params / args
 def check_type(ctx, d, stratum="type"):
     import hugr._serialization.tys as stys
@@ -78,6 +120,9 @@ def check_type(ctx, d, stratum="type"):
                      y.type_bound().value, stratum=stratum, case=d)
         if not (y == xo and xo == y):
             ctx.disc(None, "type-attributes", [d[0], route], repr(xo), repr(y), stratum=stratum, case=d)
+    from hugr import ops
+
+    doc_route(ctx, ops.AliasDefn("a", x), "type", stratum, d)
 
 
 def check_param(ctx, p):
@@ -95,6 +140,9 @@ def check_param(ctx, p):
             ctx.disc(None, "param-reencode", p[0], j, dump(y), stratum="param", case=p)
         if y != x:
             ctx.disc(None, "param-attributes", p[0], repr(x), repr(y), stratum="param", case=p)
+    from hugr import ops, tys
+
+    doc_route(ctx, ops.FuncDecl("d", tys.PolyFuncType([x], tys.FunctionType.empty())), "param", "param", p)
 
 
 def check_arg(ctx, a):
@@ -114,6 +162,9 @@ def check_arg(ctx, a):
             ctx.disc(None, "arg-reencode", a[0], j, dump(y), stratum="arg", case=a)
         if y != xo:
             ctx.disc(None, "arg-attributes", a[0], repr(xo), repr(y), stratum="arg", case=a)
+    from hugr import ops, tys
+
+    doc_route(ctx, ops.Custom("op", tys.FunctionType.empty(), "", "some.ext", [x]), "arg", "arg", a)
 
 
 # ------------------------------------------------------------------------------------ sugar
@@ -160,6 +211,7 @@ def check_value(ctx, case, stratum="value"):
 
     td, vd = case
     V = VBuilder(Builder()).val(vd)
+    Vo = VBuilder(Builder(opaque=True)).val(vd)
     j = dump(V)
     ctx.count("monitor:value-roundtrip")
     for route in ("json", "dict"):
@@ -170,6 +222,12 @@ def check_value(ctx, case, stratum="value"):
         if wire.canon(dump(y.type_())) != wire.canon(dump(V.type_())):
             ctx.disc(None, "value-type-after-decode", [vd[0], route], dump(V.type_()), dump(y.type_()),
                      stratum=stratum, case=case)
+        if not (veq(y, Vo) and veq(Vo, y)):
+            ctx.disc(None, "value-attributes", [vd[0], route], repr(Vo)[:400], repr(y)[:400], stratum=stratum,
+                     case=case)
+    from hugr import ops
+
+    doc_route(ctx, ops.Const(V), "value", stratum, case)
 
 
 # ------------------------------------------------------------------------------------ ops
